@@ -40,8 +40,8 @@ MutsO(t, offs) ==
     IN  {NoMut}
         \cup { MTrunc(k) : k \in cuts }
         \cup { MExt(k, 0) : k \in {1, 8, 32} }
-        \cup { MPoint(i, cls) : i \in F("point") \cap (1..40), cls \in {10, 11} }
-        \cup (IF n >= 1000 THEN { MPoint(n, 10) } ELSE {})
+        \cup { MPoint(i, cls) : i \in F("point") \cap (1..40), cls \in {10, 11, 12} }
+        \cup (IF n >= 1000 THEN { MPoint(n, 10), MPoint(n, 12) } ELSE {})
         \cup { MSet(i, t[i].v + 1) : i \in F("gcnt") \cup F("ccnt") \cup F("cnt") \cup F("size") \cup (F("txlen") \cap (1..12)) }
         \cup { MSet(i, t[i].v - 1) : i \in { j \in F("gcnt") \cup F("ccnt") \cup F("cnt") \cup F("size") \cup (F("txlen") \cap (1..12)) : t[j].v > 0 } }
         \cup { MSet(i, t[i].v - 8) : i \in F("size") }
